@@ -8,6 +8,8 @@ pub struct B {
     pub chp: f32,
     pub gas: f32,
     pub amb: f32,
+    /// declared EAMBIENTE production of the same system as `amb`
+    pub amb_prod: f32,
 }
 pub const V: [f32; 5] = [0.0, 0.5, 1.0, 2.0, 3.0];
 
@@ -21,7 +23,7 @@ pub fn singles() -> Vec<B> {
                     for &acs_el in &[0.0, 1.0] {
                         for &gas in &[0.0, 2.0] {
                             for &amb in &[0.0, 2.0] {
-                                v.push(B { cal_el, acs_el, nepb_el, pv, chp, gas, amb });
+                                v.push(B { cal_el, acs_el, nepb_el, pv, chp, gas, amb, amb_prod: 0.0 });
                             }
                         }
                     }
@@ -49,6 +51,7 @@ pub fn text(steps: &[B]) -> String {
     l.extend(line("3,CONSUMO,COGEN,GASNATURAL", &col(|b| 2.5 * b.chp)));
     l.extend(line("4,CONSUMO,CAL,GASNATURAL", &col(|b| b.gas)));
     l.extend(line("5,CONSUMO,ACS,EAMBIENTE", &col(|b| b.amb)));
+    l.extend(line("5,PRODUCCION,EAMBIENTE", &col(|b| b.amb_prod)));
     l.join("\n")
 }
 /// tiny deterministic generator (xorshift) for the sampled part of the domain
@@ -68,11 +71,18 @@ impl Rng {
 /// multi-step buildings: fixed special cases + `n` sampled pairs / triples
 pub fn multis(seed: u64, n: usize) -> Vec<Vec<B>> {
     let s = singles();
-    let z = B { cal_el: 0.0, acs_el: 0.0, nepb_el: 0.0, pv: 0.0, chp: 0.0, gas: 0.0, amb: 0.0 };
+    let z = B { cal_el: 0.0, acs_el: 0.0, nepb_el: 0.0, pv: 0.0, chp: 0.0, gas: 0.0, amb: 0.0, amb_prod: 0.0 };
     let mut out = vec![
         vec![B { cal_el: 2.0, pv: 3.0, chp: 1.0, ..z }, B { cal_el: 1.0, pv: 0.0, chp: 3.0, nepb_el: 1.0, ..z }],
         vec![B { cal_el: 0.0, pv: 2.0, ..z }, B { cal_el: 3.0, pv: 0.5, acs_el: 1.0, ..z }],
         vec![B { cal_el: 1.0, chp: 3.0, gas: 2.0, ..z }, B { cal_el: 2.0, chp: 1.0, amb: 2.0, ..z }, B { cal_el: 0.5, pv: 2.0, nepb_el: 3.0, ..z }],
+        // declared ambient production slightly below the use (small uncovered part), alone and with electricity
+        vec![B { amb: 1.0, amb_prod: 0.982, cal_el: 1.0, ..z }, B { amb: 2.0, amb_prod: 1.0, cal_el: 0.5, pv: 1.0, ..z }],
+        // production marginally above the EPB use (tiny export), one and two steps
+        vec![B { cal_el: 1.0, pv: 1.0005, ..z }],
+        vec![B { cal_el: 2.0, pv: 2.0004, nepb_el: 0.0, ..z }, B { cal_el: 1.0, pv: 0.5, ..z }],
+        // twelve monthly steps with PV, cogeneration, non-EPB use and ambient heat
+        (0..12).map(|m| { let w = 1.0 + ((m * 5) % 7) as f32; B { cal_el: w, acs_el: 1.0, nepb_el: if m % 3 == 0 { 1.5 } else { 0.0 }, pv: 0.5 + ((m * 3) % 5) as f32, chp: if m % 4 == 1 { 2.0 } else { 0.0 }, gas: 1.0, amb: w * 0.5, amb_prod: 0.0 } }).collect(),
     ];
     let mut r = Rng(seed ^ 0xC7EE9BD);
     for i in 0..n {
@@ -80,4 +90,18 @@ pub fn multis(seed: u64, n: usize) -> Vec<Vec<B>> {
         out.push((0..k).map(|_| *r.pick(&s)).collect());
     }
     out
+}
+
+/// hand-written special buildings (text) used by every predicate that takes whole files
+pub fn extras() -> Vec<&'static str> {
+    vec![
+        // two cogeneration units with different fuels, exporting
+        "1,CONSUMO,CAL,ELECTRICIDAD,5\n2,PRODUCCION,EL_COGEN,20\n2,CONSUMO,COGEN,GASNATURAL,50\n3,PRODUCCION,EL_COGEN,10\n3,CONSUMO,COGEN,BIOMASA,30\n4,CONSUMO,ACS,BIOMASA,12",
+        "1,CONSUMO,CAL,ELECTRICIDAD,5,40\n2,PRODUCCION,EL_COGEN,20,10\n2,CONSUMO,COGEN,GASNATURAL,50,25\n3,PRODUCCION,EL_COGEN,10,10\n3,CONSUMO,COGEN,GASNATURAL,30,30\n4,PRODUCCION,EL_INSITU,3,0\n5,CONSUMO,ACS,EAMBIENTE,6,6",
+        // PV surplus consumed by non-EPB electricity and partly exported to the grid
+        "1,CONSUMO,ILU,ELECTRICIDAD,10\n1,PRODUCCION,EL_INSITU,40\n1,CONSUMO,NEPB,ELECTRICIDAD,12\n2,CONSUMO,CAL,BIOMASA,30",
+        "1,CONSUMO,ILU,ELECTRICIDAD,10,10\n1,PRODUCCION,EL_INSITU,15,40\n1,CONSUMO,NEPB,ELECTRICIDAD,20,5\n2,CONSUMO,CAL,RED1,30,30",
+        // district networks and solar thermal with surplus
+        "1,CONSUMO,CAL,RED1,40\n1,CONSUMO,REF,RED2,10\n2,CONSUMO,ACS,TERMOSOLAR,7\n2,PRODUCCION,TERMOSOLAR,12\n3,CONSUMO,VEN,ELECTRICIDAD,4",
+    ]
 }
